@@ -4,6 +4,7 @@ from . import _process_common as pc
 
 ASSUMPTIONS = [
     "leg A: the length/index bookkeeping of the permeance series (initial entry, look-ahead, pop) is part of MC_ProcessQ; the Arrhenius re-basing identity of the fitted function is model-checked in IEEE arithmetic (MC_PVFunction)",
+    "leg A (curve model): MC_NICurveQ runs the NICurve machine (Start/Step/Raise/Finish with the look-ahead point and its pop) on exact rationals with the fitted functions and fluxes free",
     "leg B: the fit returned by a model is evaluated through its public __call__ at the reported states; the public find_best_fit and Membrane.calculate_activation_energy are re-run by the harness as oracles (the optimiser itself is uninterpreted)",
     "tolerance 1e-9",
 ]
@@ -16,11 +17,12 @@ CLAUSES = {
     "Cl_PermUnits": "permeances reported in kg/(m2 h kPa)",
 }
 MANIFEST = {
-    "text": "TLC model-checks the permeance-series bookkeeping of the Process machine and the re-basing identity of the PVFunction "
-            "specification; recorded non-ideal process runs and non-ideal diffusion curves of the real code are validated step by step "
+    "text": "TLC model-checks the permeance-series bookkeeping of the Process machine, whole runs of the non-ideal curve machine "
+            "(NICurve.tla: exact rationals, free fitted functions and fluxes; permeance = fit x constant factor, step 0, lengths, grid, "
+            "outcome; four named wrong designs refuted) and the re-basing identity of the PVFunction specification; recorded non-ideal process runs and non-ideal diffusion curves of the real code are validated step by step "
             "against the fit the models return (public __call__) and against the public best-fit search / activation energy re-run as oracle.",
     "note": "The optimiser is uninterpreted (deterministic function of data and orders). Scenarios sampled; each costs two Powell fits.",
-    "technique": "TLA+ spec (Process, PVFunction) + TLC + TLC trace validation of recorded non-ideal runs with public-API oracles",
+    "technique": "TLA+ spec (Process, NICurve, PVFunction) + TLC + TLC trace validation of recorded non-ideal runs with public-API oracles",
 }
 
 
@@ -29,6 +31,15 @@ def leg_a(ctx):
         {"spec": "MC_PVFunction.tla", "cfg": "MC_PVFunction.cfg", "workers": 4, "coverage": True,
          "what": "re-basing and scaling identities of the fitted function on a grid, IEEE arithmetic"},
         {"spec": "MC_PVFunction.tla", "cfg": "MC_PVFunction_neg.cfg", "expect": "violates:Inv_Rebased", "workers": 2},
+        {"spec": "MC_NICurveQ.tla", "cfg": "MC_NICurveQ.cfg", "workers": 4, "coverage": True,
+         "what": "whole runs of the non-ideal curve machine (NICurve.tla), exact rationals, free fitted functions and fluxes: "
+                 "lengths, grid, permeance follows the fit with a constant factor, step 0, outcome by grid"},
+        {"spec": "MC_NICurveQ.tla", "cfg": "MC_NICurveQ_neg_perm_lag.cfg", "expect": "violates:Inv_PermFollowsFit", "workers": 2},
+        {"spec": "MC_NICurveQ.tla", "cfg": "MC_NICurveQ_neg_fr_shared.cfg", "expect": "violates:Inv_PermFollowsFit", "workers": 2},
+        {"spec": "MC_NICurveQ.tla", "cfg": "MC_NICurveQ_neg_fr_drifts.cfg", "expect": "violates:Inv_PermFollowsFit", "workers": 2},
+        {"spec": "MC_NICurveQ.tla", "cfg": "MC_NICurveQ_neg_no_pop.cfg", "expect": "violates:Inv_Len", "workers": 2},
+        {"spec": "MC_NICurveQ.tla", "cfg": "MC_NICurveQ_reach_NeverReturned.cfg", "expect": "violates:NeverReturned", "workers": 2},
+        {"spec": "MC_NICurveQ.tla", "cfg": "MC_NICurveQ_reach_NeverRaised.cfg", "expect": "violates:NeverRaised", "workers": 2},
     ]
 
 
